@@ -86,8 +86,11 @@ CLAIMED = {
             'any session, any chart built by the API). PARTIAL: acyclicity beyond no-self-parent and validate() after each edit are checked by the tie. ' + TIE, '§6 C16'),
     'C17': ('Lean 4 proof: rename substitutes exactly the transition ends, keeps internal transitions internal, is atomic + guest/copy correspondence',
             'rename_substitutes_transition_ends, rename_keeps_internal, rename_to_itself, rename_atomic; rename_is_substitution (the renamed chart is '
-            'the chart with the name substituted everywhere, up to declaration order) and renamed_behaves_as_substituted (by C07: same runs). '
-            'PARTIAL: equivariance of the interpreter under the substitution itself and copy_from_statechart are checked by the tie (lock-step runs), not proved. ' + TIE, '§6 C17'),
+            'the chart with the name substituted everywhere, up to declaration order) and renamed_behaves_as_substituted (by C07: same runs); '
+            'selection_/ordering_/steps_/stabilisation_commute(s)_with_renaming: for every renaming injective and order-preserving on the names the '
+            'chart mentions, transition selection (with its guard calls), _sort_transitions, _create_steps and _create_stabilization_step give the '
+            'substituted result on the substituted chart. '
+            'PARTIAL: threading that equivariance through the effectful layer (evaluator, listeners, log) and copy_from_statechart are checked by the tie (lock-step runs), not proved. ' + TIE, '§6 C17'),
     'C18': ('Lean 4 proof: the interpreter is a value — runs compose at every boundary, an unobserved interpreter touches nothing else; snapshot identity decided by correspondence — partial',
             'run_composes, unobserved_step_is_local, unobserved_run_is_local (frame relation over execute_once). PARTIAL by nature: that pickle/deepcopy '
             'preserve the abstraction function is a fact about the implementation only; the tie replaces the interpreter by its pickled/deep-copied '
